@@ -126,7 +126,7 @@ def _validate(pool, tmp, cov, workers):
                             for x in tab["syms"]],
                            [[idx(atoms, g["tag"]), g["id"]] for g in tab["tags"]],
                            tab["args"]] for tab in st["tabs"]],
-                    "i": st["inner"], "d": st["dead"]}
+                    "i": st["inner"], "d": st["dead"], "c": st["calls"]}
         tuples = [[idx(states, t[0]), idx(ops, t[1]), t[2], idx(results, t[3]),
                    idx(states, t[4])] for t in part]
         cstates = [compact(k) for k in states]
@@ -189,7 +189,7 @@ def _diff(case):
             out.append({"table": t + 1, "tags": [a["tags"], b["tags"]]})
         if a["args"] != b["args"]:
             out.append({"table": t + 1, "args": [a["args"], b["args"]]})
-    for fld in ("inner", "dead"):
+    for fld in ("inner", "dead", "calls"):
         if case["pre"][fld] != case["post"][fld]:
             out.append({fld: [case["pre"][fld], case["post"][fld]]})
     return out
@@ -266,7 +266,7 @@ def _m_merge_skipped_container(case, clause, detail, finding):
     # imports of o re-pointed - nothing else
     my_ids = {x["id"] for x in mine}
     for d in detail["diff"]:
-        if "tags" in d or "args" in d or "inner" in d or "dead" in d:
+        if "tags" in d or "args" in d or "inner" in d or "dead" in d or "calls" in d:
             return False
         if d["table"] == op["s"]:
             x = d.get("added") or d.get("removed")
